@@ -129,6 +129,13 @@ def generate(rng, tier, i):
     return {"visualize": rng.random() < 0.06, "cls": "layout", "die": die, "kappa": rng.choice([1.0, 0.4, 1.5, 0.05, 3.0, round(rng.uniform(0.01, 3), 2)]), "max_iter": rng.choice([0, 1, 2, 5, 20])}
 
 
+def directed():
+    # witnesses of the defect found by the thorough tier (repaired in /repo): with the visualisation option, drawing a frame reset the centre
+    # of every module that has rectangles, so such modules came back where they started and the returned layout was not the cheapest trial
+    return [{'visualize': True, 'cls': 'layout', 'die': {'fam': 'half', 'W': 8.5, 'H': 3.5, 'regions': [], 'fixed': {}, 'struct': 'empty', 'netlist': {'Modules': {'S0': {'area': 0.48474, 'center': [0.0, 1.75]}, 'S1': {'area': 0.27008, 'center': [5.70138, 1.19287]}, 'S2': {'area': 0.44684, 'center': [8.5, 2.558]}, 'H3': {'area': 1.1727239999999999, 'rectangles': [[5.70138, 1.19287, 1.932, 0.607]]}, 'H4': {'hard': True, 'rectangles': [[7.6075, 2.558, 1.785, 0.8784], [7.16125, 3.1069999999999998, 0.8925, 0.2196]]}, 'S5': {'area': 1.1347, 'center': [1.51161, 3.37897]}, 'S6': {'area': 1.261, 'center': [1.36015, 1.10302]}, 'S7': {'area': 0.61832, 'center': [8.5, 2.558]}}, 'Nets': [['S0', 'H3', 'S7']]}}, 'kappa': 1.5, 'max_iter': 1},
+            {'cls': 'algorithm', 'die': {'fam': 'half', 'W': 8.5, 'H': 3.5, 'regions': [], 'fixed': {}, 'struct': 'empty', 'netlist': {'Modules': {'S0': {'area': 0.48474, 'center': [0.0, 1.75]}, 'S1': {'area': 0.27008, 'center': [5.70138, 1.19287]}, 'S2': {'area': 0.44684, 'center': [8.5, 2.558]}, 'H3': {'area': 1.1727239999999999, 'rectangles': [[5.70138, 1.19287, 1.932, 0.607]]}, 'H4': {'hard': True, 'rectangles': [[7.6075, 2.558, 1.785, 0.8784], [7.16125, 3.1069999999999998, 0.8925, 0.2196]]}, 'S5': {'area': 1.1347, 'center': [1.51161, 3.37897]}, 'S6': {'area': 1.261, 'center': [1.36015, 1.10302]}, 'S7': {'area': 0.61832, 'center': [8.5, 2.558]}}, 'Nets': [['S0', 'H3', 'S7']]}}, 'max_iter': 2, 'query_first': False, 'visualize': True}]
+
+
 def snapshot(die):
     from fv import netutil as nu
     s = nu.summary(die.netlist)
